@@ -256,6 +256,9 @@ fn raw_put(pid: u8, key: &Key, vlen: usize, val: [u8; 2], seq: u32) {
             }
             i += 1;
         }
+        if pid == P_STREAM {
+            trace::visible(key.w[0]);
+        }
         let n = part.n;
         if n >= LIMIT {
             nd::bound_exceeded("partition slots");
